@@ -179,6 +179,8 @@ def run_unit(unit, ctx):
             # integer lattice point handed over as an int64 array through State.from_data
             for s in sm.state:
                 p[s.name] = float(int(round(p[s.name] * 3)))
+            if all(p[k] == 0.0 for k in ("oriw", "orix", "oriy", "oriz")):
+                p["oriw"] = 2.0  # the zero quaternion is outside the model's domain (1/|q|^2)
             use_array = "int64"
         ref = reference(p)
         try:
